@@ -13,7 +13,7 @@ EXTENDS Integers, Sequences, FiniteSets, TLC, Rat
 
 \* (180, 360, 45, 90, 255, 385: levels whose value in metres, divided by the library's factor again, does
 \* not give the level back exactly)
-FlSets == {<<50, 100>>, <<0, 100, 300>>, <<50, 150, 350, 410>>, <<0, 180, 360, 410>>, <<45, 90, 255, 385>>}
+FlSets == {<<50, 100>>, <<45, 90>>, <<0, 100, 300>>, <<50, 150, 350, 410>>, <<0, 180, 360, 410>>, <<45, 90, 255, 385>>}
 Phases == {"climb", "cruise", "descent"}
 
 \* table values (shape rules of BADA tables: TAS depends on FL only; climb
@@ -50,7 +50,7 @@ Done == st = "done"
 EvalCasesAll == UNION {[fls : {F}, a : {0, 1, 2}, b : {0, 1}, ph : Phases, cz : {-1, 0, 1, 2}, ord : Orders, cf : {0, 1}, dt : {0, 1},
                         fl2 : -1..(2 * Len(F) - 1), m2 : (-1..5) \cup {100, 101}] : F \in FlSets}
 \* all value shapes with the plain layout, all layouts with one value shape, all phase coverages with one value shape and the plain layout
-EvalCases == {x \in EvalCasesAll : /\ Len(x.fls) - x.cf >= 2 /\ Len(x.fls) - x.dt >= 2
+EvalCases == {x \in EvalCasesAll : /\ Len(x.fls) - x.cf >= 1 /\ Len(x.fls) - x.dt >= 1     \* (a phase with a single level is a table: its one level answers, nothing else)
                                    /\ \/ (x.cz = 0 /\ x.ord = "asc" /\ x.cf = 0 /\ x.dt = 0)
                                       \/ (x.a = 1 /\ x.b = 1 /\ x.cf = 0 /\ x.dt = 0)
                                       \/ (x.a = 1 /\ x.b = 1 /\ x.cz = 0 /\ x.ord = "asc")}
